@@ -244,4 +244,58 @@ var props = map[string]*Prop{
 		Assumptions: append([]string{"inverse-table lemma ReverseWordMap[DefaultWordList[i]] == i checked concretely on the real 2048-entry tables of this run", "ideal SHA-512/HMAC/ECDH (collision freedom, DH commutativity)"}, commonAssumptions...),
 		Bounds:      []string{"all 2^112 entropies and all 2048^10 phrases (single symbolic path each)"},
 	},
+	"C10": {
+		ID: "C10",
+		Runs: []Run{
+			{Pkg: "gbn", Harness: "VH_C10_Handshake", MustReach: []string{"handshake-done", "fault-free", "exchanged"}, Synctest: true,
+				What:     "real NewClientConn || NewServerConn on the virtual clock (keep-alive as deployed): symbolic fate (deliver/drop/duplicate) of the first `faults` handshake packets per direction, up to `maxstale` stale packets with symbolic bytes in either direction, three start orders, client window in {1,2,20,254}; then a request/reply exchange",
+				Quick:    &TierOpt{Params: P("faults", 2, "maxstale", 1)},
+				Thorough: &TierOpt{Params: P("faults", 3, "maxstale", 2), Sched: 1, MaxPaths: 5000000}},
+			{Pkg: "gbn", Harness: "VH_C07_ServerSYN", MustReach: []string{"data-phase"}, Synctest: true, What: "server never adopts a window the protocol cannot represent (all 256 SYN values)", Quick: q(nil)},
+		},
+		Assumptions: append([]string{"oracle: no crash, no silent hang of a party (with no stale garbage), no foreign window, a fault-free attempt succeeds; a stray duplicate handshake packet tearing the fresh connection down visibly is the 'fails with an error' branch of the statement"}, commonAssumptions...),
+		Bounds:      []string{"faults on the first 2 (quick) / 3 (thorough) packets per direction, <= 1 / 2 stale packets of 1..3 symbolic bytes, horizon 120 virtual seconds"},
+	},
+	"C12": {
+		ID: "C12",
+		Runs: []Run{
+			{Pkg: "gbn", Harness: "VH_C12_Close", MustReach: []string{"closed", "quiesced"}, Synctest: true,
+				What:     "Close injected at 5 points of virtual time (incl. inside resend waits) by client / server / both, once or twice, blocked Send and Recv present, transport healthy or silent, keep-alive on/off: Close returns in bounded time, calls fail, peer is told, no goroutine or ticker left",
+				Quick:    &TierOpt{Params: P("faults", 0)},
+				Thorough: &TierOpt{Params: P("faults", 1), Sched: 1, MaxPaths: 5000000}},
+		},
+		Assumptions: commonAssumptions,
+		Bounds:      []string{"window 1..2, 0..N+1 queued messages, 5 close instants x default schedule (quick) / +1 schedule deviation and one symbolic packet fate (thorough)"},
+		Outside:     []string{"Close during the GBN handshake itself (constructors call Close on failure: covered by C10 runs)"},
+	},
+	"C13": {
+		ID: "C13",
+		Runs: []Run{
+			{Pkg: "gbn", Harness: "VH_C13_Blackhole", MustReach: []string{"dead-peer-detected"}, Synctest: true,
+				What:  "keep-alive (5s/3s, 7s/3s, 1s/1s): transport goes silent after 0..1.5 s idle with 0..N+1 messages queued: connection closed within ping+pong+20 s",
+				Quick: q(P("maxn", 2)), Thorough: q(P("maxn", 3))},
+			{Pkg: "gbn", Harness: "VH_C13_Idle", MustReach: []string{"idle-ok"}, Synctest: true,
+				What:  "healthy idle pair with response latency 0 / 45% / 90% of the pong timeout stays open for 10 virtual minutes and still works",
+				Quick: &TierOpt{MaxSteps: 60_000_000}},
+		},
+		Assumptions: commonAssumptions,
+		Bounds:      []string{"three ping/pong settings, window 1..2 (3 thorough), default schedule; the bound includes 20 s of slack for the (boosted) 3x resend-sync waits during which the send loop does not service tickers"},
+	},
+	"C18": {
+		ID: "C18",
+		Runs: []Run{
+			{Pkg: "gbn", Harness: "VH_C18_Ticker", MustReach: []string{"ticker-ops"}, What: "every pair of the ticker operations the two loops perform (Reset, Pause, Resume, IsActive, tick receive), two goroutines, <= 2 schedule deviations, happens-before race detection",
+				Quick: &TierOpt{Race: true, Sched: 2}},
+			{Pkg: "gbn", Harness: "VH_C18_TimeoutManager", MustReach: []string{"tm-ops"}, What: "every pair of TimeoutManager operations", Quick: &TierOpt{Race: true, Sched: 2}},
+			{Pkg: "gbn", Harness: "VH_C18_Queue", MustReach: []string{"queue-ops"}, What: "send-goroutine x receive-goroutine queue operations", Quick: &TierOpt{Race: true, Sched: 2}},
+			{Pkg: "gbn", Harness: "VH_C18_Conn", MustReach: []string{"conn-race"}, Synctest: true,
+				What:     "live pair with 1s/1s keep-alive; Send, Recv, timeout setters and Close from four application goroutines while the loops run; race mode",
+				Quick:    &TierOpt{Race: true, Sched: 1, Params: P("faults", 0, "closepoints", 2)},
+				Thorough: &TierOpt{Race: true, Sched: 2, Params: P("faults", 1, "closepoints", 4), MaxPaths: 3000000}},
+			{Pkg: "gbn", Harness: "VH_C13_Idle", MustReach: []string{"idle-ok"}, Synctest: true, What: "ping ticks coinciding with packet arrivals over 10 virtual minutes (channel-misuse panics)", Quick: &TierOpt{MaxSteps: 60_000_000}},
+		},
+		Assumptions: append([]string{"race detection = vector clocks over go, channel, mutex, WaitGroup, Once, atomics (per-channel clocks over-approximate happens-before: races can be missed, never invented); sequentially consistent memory"}, commonAssumptions...),
+		Bounds:      []string{"two to four application goroutines, <= 2 schedule deviations from the run-to-block default"},
+		Outside:     []string{"weak-memory effects", "schedules needing more deviations"},
+	},
 }
